@@ -108,7 +108,9 @@ def _arch_ops(obj, seq, new=True, cont=False):
     return ops, model
 
 
-def _rule_ops(obj, seq, cont=False):
+def _rule_ops(obj, seq, cont=False, watch=None):
+    """watch: (architecture object id, its layer names) - the definition a rule is based on is
+    looked at again after every are_named: building a rule must not rewrite it."""
     ops = [{"op": "new", "obj": obj, "cls": "LayerRule"}]
     model = LayerRuleModel()
     for m, a in seq:
@@ -119,6 +121,10 @@ def _rule_ops(obj, seq, cont=False):
                 break
         else:
             model.apply(m, a)
+            if watch and m == "are_named":
+                ops.append({"op": "str", "obj": watch[0]})
+                for layer in watch[1]:
+                    ops.append({"op": "getitem", "obj": watch[0], "k": layer})
     return ops
 
 
@@ -139,6 +145,8 @@ def _random_arch_seq(rng, n, stop=True):
             else:
                 k = rng.randint(1, min(3, len(mods)))
                 names = rng.sample(mods, k)
+                if rng.random() < 0.06:
+                    names, k = [], 0  # a list that names nothing
                 if k == 1 and rng.random() < 0.6:
                     call = ("containing_modules", [names[0]])
                 else:
@@ -208,7 +216,7 @@ def generate_sweep(seed, index):
                 ops, _ = _arch_ops(f"A{c}_{j}", arch_enum[no])
                 cover.append(f"arch:{no}")
             elif no - len(arch_enum) < len(rule_enum):
-                ops = _rule_ops(f"R{c}_{j}", rule_enum[no - len(arch_enum)])
+                ops = _rule_ops(f"R{c}_{j}", rule_enum[no - len(arch_enum)], watch=("SA", ["LA", "LB"]))
                 cover.append(f"rule:{no - len(arch_enum)}")
             else:
                 continue
@@ -246,7 +254,7 @@ def generate(seed, index):
         elif roll < 0.6:
             kind = "enum_rule"
             seqno = slot % len(rule_enum)
-            ops = _rule_ops(f"R{c}", rule_enum[seqno])
+            ops = _rule_ops(f"R{c}", rule_enum[seqno], watch=("SA", ["LA", "LB"]))
         elif roll < 0.72:
             kind = "random_arch"
             ops, _ = _arch_ops(f"A{c}", _random_arch_seq(rng, rng.randint(3, 12)))
@@ -260,19 +268,21 @@ def generate(seed, index):
             ops, _ = _arch_ops(f"A{c}", seq, cont=True)
         elif roll < 0.85:
             kind = "random_rule"
-            ops = _rule_ops(f"R{c}", _random_rule_seq(rng, rng.randint(2, 9), "SA", ["LA", "LB"]))
+            ops = _rule_ops(f"R{c}", _random_rule_seq(rng, rng.randint(2, 9), "SA", ["LA", "LB"]),
+                            watch=("SA", ["LA", "LB"]))
         elif roll < 0.9:
             kind = "rule_continued_after_rejection"
             first = rng.choice(["SA", "SA", "SE"])
             seq = _random_rule_seq(rng, rng.randint(3, 9), first, ["LA", "LB"],
                                    also_based_on=["SA", "SE"])
-            ops = _rule_ops(f"R{c}", seq, cont=True)
+            ops = _rule_ops(f"R{c}", seq, cont=True, watch=("SA", ["LA", "LB"]))
         else:
             kind = "arch_then_rule"
             seq = [("layer", ["LC"]), ("containing_modules", [rng.choice([["pk.m1"], "pk.m1"])]),
                    ("layer", ["LD"]), ("have_modules_with_names_matching", [rng.choice(RN)])]
             ops, _ = _arch_ops(f"A{c}", seq)
-            ops += _rule_ops(f"R{c}", _random_rule_seq(rng, rng.randint(2, 8), f"A{c}", ["LC", "LD"]))
+            ops += _rule_ops(f"R{c}", _random_rule_seq(rng, rng.randint(2, 8), f"A{c}", ["LC", "LD"]),
+                             watch=(f"A{c}", ["LC", "LD"]))
         kinds.append(kind)
         clients.append(ops)
     clients[0] = setup + clients[0]
